@@ -34,7 +34,7 @@ What makes a good change:
 * The two changes must be different in kind and location from each other (call them `a` and `b`), each a separate patch against the pristine worktree HEAD, each touching only library source under `*/src/`.
 * Prefer subtle over blunt; prefer changes whose wrongness is not visible as "a check was deleted" (e.g. wrong operand, stale value, wrong order of two effects, an early return on a rare path, a helper that is right for one caller but wrong for another, state kept in a new field that one path forgets to update, an off-by-one at a boundary that tests do not touch).
 
-Ideas that other people already delivered for this property - do NOT repeat these, find something else:
+Ideas that other people already delivered for this property - do NOT repeat these (nor close variants of them), find something else. Prefer functions, code paths and feature configurations that none of these ideas touched, and kinds of mistakes that differ from them (if they are mostly about one mechanism, break the property through another mechanism it also relies on):
 {chr(10).join(avoid) if avoid else '- (none)'}
 
 Deliverables, for each of a and b, in directory {wt}/seeded/a/ and {wt}/seeded/b/ :
